@@ -7,6 +7,7 @@ import GdcVerif.Model.Golomb
 import GdcVerif.Model.JpegLsRun
 import GdcVerif.Model.JpegLsScan
 import GdcVerif.Model.JpegLsScanL
+import GdcVerif.Model.GolombReader
 /-!
   Driver ops for the JPEG-LS kernels: every op evaluates a GENERATED definition
   (`Gen/JpegLs*.lean`) — or the hand model `JpegLsBits.bitsLen` — on the arguments the real Go
@@ -218,7 +219,22 @@ def scanLDec (hx : String) (a : List Int) : String :=
     | .error f => failStr f
   | _ => "bad-op"
 
+/-- `jls-gr <bytes> op…` : a sequence of reader calls on the model `GolombReader`
+    (op −1 = `ReadBit`, op n ≥ 0 = `ReadBits(n)`); answer: the values read, then `err`/`panic` at the
+    first failing call (later ops are not executed) -/
+def grOps (hx : String) (ops : List Int) : String :=
+  let vals (acc : List Int) : String := "ok" ++ String.join (acc.reverse.map (fun v => " " ++ toString v))
+  let rec go : List Int → GolombReader.Reader → List Int → String
+    | [], _, acc => vals acc
+    | op :: rest, r, acc =>
+      match (if op = -1 then GolombReader.readBit r else GolombReader.readBits r op) with
+      | .ok (v, r) => go rest r ((v : Int) :: acc)
+      | .error .err => vals acc ++ " err"
+      | .error .panic => vals acc ++ " panic"
+  go ops (GolombReader.new (hexToBytes hx)) []
+
 def step? : List String → Option String
+  | "jls-gr" :: hx :: a => (ints? a).map (grOps hx)
   | "jls-scanL-dec" :: hx :: a => (ints? a).map (scanLDec hx)
   | "jls-scanL-enc" :: a => (ints? a).map scanLEnc
   | "jls-scan-dec" :: hx :: a => (ints? a).map (scanDec hx)
